@@ -67,6 +67,7 @@ type Case struct {
 	HeaderOp  string   `json:"header_op"` // what the handler does before failing: "" nothing | "set" grpc.SetHeader | "send" grpc.SendHeader
 	JSONSub   bool     `json:"json_sub"`  // gRPC-web: the message sub-codec is +json instead of +proto (status details stay a binary google.rpc.Status)
 	Gzip      bool     `json:"gzip"`      // gRPC family: the call negotiates per-message gzip (request and replies compressed)
+	SendLimit int      `json:"send_limit"` // > 0: the mux limits the size of reply MESSAGES (MaxSendMessageSizeOption); a status is not a message and is delivered whatever its size (as in grpc-go)
 	Spoof     bool     `json:"spoof"`     // the handler also sets trailer metadata under the protocol's own names (grpc-status: 0, grpc-message: all good); such metadata is never transmitted (grpc-go drops it too), the returned status stands
 }
 
@@ -116,7 +117,11 @@ func (c Case) status() *status.Status {
 
 func newMux(c Case) *larking.Mux {
 	w := theWorld()
-	mux, err := larking.NewMux(larking.FilesOption(w.Files))
+	mopts := []larking.MuxOption{larking.FilesOption(w.Files)}
+	if c.SendLimit > 0 {
+		mopts = append(mopts, larking.MaxSendMessageSizeOption(c.SendLimit))
+	}
+	mux, err := larking.NewMux(mopts...)
 	if err != nil {
 		panic(err)
 	}
@@ -550,6 +555,9 @@ func genCase(t *rapid.T, transports []string) Case {
 	}
 	c.HeaderOp = rapid.SampledFrom([]string{"", "", "set", "send"}).Draw(t, "headerOp")
 	c.Spoof = rapid.IntRange(0, 5).Draw(t, "spoof") == 0
+	if rapid.IntRange(0, 5).Draw(t, "sendLimit") == 0 {
+		c.SendLimit = rapid.SampledFrom([]int{16, 64, 256}).Draw(t, "sendLimitV") // the replies of this check are a few bytes long
+	}
 	if c.Transport == "httpjson" && c.After < 0 && rapid.IntRange(0, 3).Draw(t, "rawUpload") == 0 {
 		c.ReqType = rapid.SampledFrom([]string{"image/jpeg", "application/json; charset=utf-8", "text/plain", "application/x-unknown"}).Draw(t, "reqType")
 		c.Accept = rapid.SampledFrom([]string{"", "", "image/*", "application/json", "*/*", "application/protobuf"}).Draw(t, "acceptErr")
@@ -599,6 +607,9 @@ func record(c Case) {
 	if c.Spoof {
 		cl = append(cl, "handler-sets-reserved-trailer-names")
 	}
+	if c.SendLimit > 0 {
+		cl = append(cl, "mux-with-send-limit")
+	}
 	if c.HeaderOp != "" {
 		cl = append(cl, "handler-header-op="+c.HeaderOp)
 	}
@@ -606,7 +617,7 @@ func record(c Case) {
 		cl = append(cl, "raw-upload-request")
 	}
 	if needsEsc || len(c.Details) > 0 || c.Code > 16 || c.After > 0 {
-		key = fmt.Sprintf("%s|%d|%q|%v|%d|%v|%v|%s|%s|%s", c.Transport, c.Code, c.Msg, c.Details, c.After, c.Gzip, c.JSONSub, c.HeaderOp+fmt.Sprint(c.Spoof), c.ReqType, c.Accept)
+		key = fmt.Sprintf("%s|%d|%q|%v|%d|%v|%v|%s|%s|%s", c.Transport, c.Code, c.Msg, c.Details, c.After, c.Gzip, c.JSONSub, c.HeaderOp+fmt.Sprint(c.Spoof, c.SendLimit), c.ReqType, c.Accept)
 	}
 	evid.Eval(key, cl...)
 }
